@@ -39,6 +39,18 @@ static Matrix filled(long r, long c)
 			M[i][j] = 1.0 + i + 0.25 * j;
 	return M;
 }
+// a method name: the token itself, or `%` followed by the bytes of the name in hexadecimal (names that are empty or hold blanks,
+// control characters, NUL or bytes above 0x7e cannot be tokens of the case language)
+static std::string mname(const std::string& t)
+{
+	if(t.empty() || t[0] != '%')
+		return t;
+	auto hv = [](char c) { return (c >= '0' && c <= '9') ? c - '0' : ((c >= 'a' && c <= 'f') ? c - 'a' + 10 : ((c >= 'A' && c <= 'F') ? c - 'A' + 10 : 0)); };
+	std::string s;
+	for(size_t k = 1; k + 1 < t.size(); k += 2)
+		s.push_back((char) (hv(t[k]) * 16 + hv(t[k + 1])));
+	return s;
+}
 static void use(const Matrix& M) { sink = M.Rows() + M.Columns() + (M.Rows() > 0 && M.Columns() > 0 ? M[0][0] : 0.0); }
 static void use(const Vector& v) { sink = v.Size() + (v.Size() > 0 ? v[0] : 0.0); }
 
@@ -203,7 +215,7 @@ static void handler(vh::Reader& r, vh::Out& o)
 		}
 		else
 		{
-			m	  = r.word();
+			m	  = mname(r.word());
 			int d = (e == "int1") ? 2 : (e == "int2" ? 4 : (e == "int3" ? 6 : -1));
 			if(d < 0)
 			{
@@ -486,24 +498,24 @@ static void handler(vh::Reader& r, vh::Out& o)
 	}
 	else if(op == "integrate" || op == "integrate_eq")
 	{
-		std::string m = r.word();
+		std::string m = mname(r.word());
 		double b	  = (op == "integrate") ? 1.0 : 0.25;
 		sink		  = Integrate([](double x) { return 1.0 + x * x; }, 0.25, b, m);
 	}
 	else if(op == "integrate_2d")
 	{
-		std::string m = r.word();
+		std::string m = mname(r.word());
 		sink		  = Integrate_2D([](double x, double y) { return 1.0 + x + 2.0 * y; }, 0.0, 1.0, 0.0, 1.0, m, (m == "Monte-Carlo" || m == "Vegas" || m == "Miser") ? 400 : 0);
 	}
 	else if(op == "integrate_3d")
 	{
-		std::string m = r.word();
+		std::string m = mname(r.word());
 		bool mc		  = (m == "Monte-Carlo" || m == "Vegas" || m == "Miser");
 		sink		  = Integrate_3D([](double x, double y, double z) { return 1.0 + x + 2.0 * y - z; }, 0.0, 1.0, 0.0, 1.0, 0.0, 1.0, m, mc ? 400 : (m == "Gauss-Legendre_2" ? 4 : (m == "Gauss-Kronrod" ? 1 : 0)));
 	}
 	else if(op == "integrate_mc")
 	{
-		std::string m											   = r.word();
+		std::string m											   = mname(r.word());
 		std::function<double(std::vector<double>&, const double)> f = [](std::vector<double>& x, const double w) { return 1.0 + x[0] * x[1]; };
 		std::vector<double> region									   = {0.0, 0.0, 1.0, 1.0};
 		sink														   = Integrate_MC(f, region, 400, m);
